@@ -97,6 +97,11 @@ func runC17(t *testing.T, seed uint64, planJSON []byte, tier string) (res *Resul
 		}
 		ap := genATPlan(seed, tier, "mixed")
 		ap.Cfg.ServerVersion = []string{"8.0.30", "8.0.28", "8.0.30", "5.7.40"}[(seed/3)%4]
+		if ap.Cfg.ServerVersion != "8.0.30" {
+			// a session of these servers accepts nothing while it holds a prepared
+			// branch: two XA branches cannot share one pinned connection there
+			ap.Opts.DedicatedConn = false
+		}
 		plan = &C17Plan{Mode: mode, Cfg: ap.Cfg, Opts: ap.Opts, Tables: ap.Tables, Episodes: ap.Episodes[:1]}
 		plan.Episodes[0].StopOnErr = true
 		// XA branches of one global transaction do not share row locks: keep the
